@@ -175,7 +175,7 @@ def coq_phase(prop_dirs, props_file, timeout=1500):
     t0 = time.time()
     r = CoqResult()
     write_coqproject()
-    dirs = ["Base", "Gen"] + list(prop_dirs)
+    dirs = ["Base"] + list(prop_dirs)      # regenerated files live in Gen/<property>/ and are listed by the check that owns them
     files = [f for f in coq_project_files() if any(f.startswith(d + "/") for d in dirs)]
     targets = [f + "o" for f in files]
     rc, o, e = sh(["make", "-j%d" % NCPU, "-k"] + targets, cwd=COQ, timeout=timeout)
